@@ -210,6 +210,9 @@ TYPE_SEQS = [
     (['vector', '<', 'MultiTag', '>'], 'vec_MultiTag'),
     (['vector', '<', 'Property', '>'], 'vec_Property'),
     (['queue', '<', 'SourceCont', '>'], 'queue_SourceCont'),
+    (['list', '<', 'tuple', '<', 'Section', ',', 'size_t', '>>'], 'list_SectionCont'),
+    (['list', '<', 'tuple', '<', 'Section', ',', 'size_t', '>', '>'], 'list_SectionCont'),
+    (['tuple', '<', 'Section', ',', 'size_t', '>'], 'SectionCont'),
     (['Filter', '<', 'Source', '>', '::', 'type'], 'SourceFilterFn'),
     (['Filter', '<', 'Section', '>', '::', 'type'], 'SectionFilterFn'),
     (['NDSizeBase', '<', 'T', '>'], 'NDSize'),
@@ -488,6 +491,12 @@ def r_vectors(ctx, toks):
                 if m == 'empty':
                     out.extend([P('(', t.ws), Tok('id', t.t, ''), P(acc, ''), Tok('id', 'n', ''), P('=='), Tok('num', '0', ' '), P(')', '')])
                     i += 5; fire(ctx, 'vec-empty'); continue
+                if m == 'front':       # v.front() -> v.data[0]   (undefined for an empty vector: an out-of-bounds read in C as well)
+                    out.extend([P('(', t.ws), Tok('id', t.t, ''), P(acc, ''), Tok('id', 'data', ''), P('[', ''), Tok('num', '0', ''), P(']', ''), P(')', '')])
+                    i += 5; fire(ctx, 'vec-front'); continue
+                if m == 'back':        # v.back() -> v.data[v.n - 1]
+                    out.extend([P('(', t.ws), Tok('id', t.t, ''), P(acc, ''), Tok('id', 'data', ''), P('[', ''), Tok('id', t.t, ''), P(acc, ''), Tok('id', 'n', ''), P('-', ' '), Tok('num', '1', ' '), P(']', ''), P(')', '')])
+                    i += 5; fire(ctx, 'vec-back'); continue
             if i + 3 < n and toks[i + 1].t == '.' and toks[i + 2].t == 'resize' and toks[i + 3].t == '(' and (ty + '_resize') in ctx.sigs:
                 # v.resize(n): call of the (stub) primitive vec_T_resize(&v, n)
                 out.append(Tok('id', ty + '_resize', t.ws)); out.append(P('(', '')); out.extend(addr(ctx, t.t)); out.append(P(',', ''))
@@ -640,6 +649,11 @@ def r_calls(ctx, toks):
                         a = [P('&', a[0].ws)] + a; a[1].ws = ''; changed = True; fire(ctx, 'arg-addr-member')
                     if pref and len(a) == 1 and a[0].k == 'id' and a[0].t in ctx.env and not ctx.env[a[0].t][1]:
                         a = [P('&', a[0].ws), Tok('id', a[0].t, '')]; changed = True; fire(ctx, 'arg-addr')
+                    elif pref and len(a) > 2 and a[0].k == 'id' and a[0].t in ctx.sigs and a[1].t == '(' and match_close(a, 1) == len(a) - 1 \
+                            and ctx.sigs[a[0].t]['ret'] == pty and (pty in STRUCT_TYPES or pty in ctx.unit.get('classes', ())):
+                        # a call result (by value) bound to a C++ reference parameter: address of a temporary
+                        ws = a[0].ws; a[0].ws = ''
+                        a = [Tok('id', 'TMP_' + pty, ws), P('(', '')] + a + [P(')', '')]; changed = True; fire(ctx, 'arg-temp-addr')
                     elif (not pref) and (pty in STRUCT_TYPES or pty in ctx.unit.get('classes', ())) and len(a) == 1 and a[0].k == 'id' and a[0].t in ctx.env \
                             and ctx.env[a[0].t] == (pty, True):
                         a = [P('*', a[0].ws), Tok('id', a[0].t, '')]; changed = True; fire(ctx, 'arg-deref')
@@ -1153,7 +1167,23 @@ def r_hoist_throws(ctx, toks):
                 raise ExtractError('void may-throw call nested in an expression')
             tmp = newtmp()
             pre.extend(tokenize(' %s %s =' % (rty, tmp))); pre.extend(seg[k:e + 1]); pre.append(P(';', '')); pre.extend(tokenize(CHECK))
-            seg = seg[:k] + [Tok('id', tmp, seg[k].ws)] + seg[e + 1:]
+            repl = [Tok('id', tmp, seg[k].ws)]
+            # the hoisted value is a whole argument of a call whose parameter is a pointer (a C++ reference parameter bound to a temporary): pass its address
+            if k > 0 and seg[k - 1].t in ('(', ',') and e + 1 < len(seg) and seg[e + 1].t in (',', ')') and '*' not in rty:
+                d = 0; pos = 0; j = k - 1
+                while j >= 0:
+                    tj = seg[j]
+                    if tj.k == 'punct' and tj.t in ')]': d += 1
+                    elif tj.k == 'punct' and tj.t in '([':
+                        if d == 0: break
+                        d -= 1
+                    elif d == 0 and tj.t == ',': pos += 1
+                    j -= 1
+                if j > 0 and seg[j].t == '(' and seg[j - 1].k == 'id' and seg[j - 1].t in ctx.sigs:
+                    ps = ctx.sigs[seg[j - 1].t]['params']
+                    if pos < len(ps) and ps[pos][2] and ps[pos][0] == rty:
+                        repl = [P('&', seg[k].ws), Tok('id', tmp, '')]; fire(ctx, 'hoist-arg-addr')
+            seg = seg[:k] + repl + seg[e + 1:]
             fire(ctx, 'hoist-maythrow')
         return pre, seg, top
     def lower_bool(seg):
